@@ -1,5 +1,60 @@
 import Ecal.Drivers.Util
+import Ecal.Model.Conc
+/-!
+Driver of C11. Payload (space separated `key=value`):
+  `w=<workers> h=<submitters> ev=<events> sinks=<n> ff=<0|1> body=<…> glob=<0|1> burst=<n> seed=<n>`
+The model side instantiates `Ecal.Conc.sinkSys []` (the action closure as it is: no
+captured assignment) with min(ev, 48) overlapping invocations whose outcomes and whose
+interleaving (at most `w` invocations in flight) are derived from the seed, and counts
+lost / duplicated / mis-attributed results and wrong echoes against the outcome
+function. Result: `<lost> <dup> <misattr> <echo>` (theorem `errors_attributed`: all 0).
+-/
 namespace Ecal.Drv.C11
-/-- model driver of property C11 (stub: not implemented yet) -/
-def run (_args : List String) : IO Unit := Ecal.Drv.lineLoop fun _ => "unimplemented"
+open Ecal.Drv Ecal.Conc
+
+def field (fs : List String) (k : String) : Nat :=
+  match fs.find? (·.startsWith (k ++ "=")) with
+  | some s => ((s.drop (k.length + 1)).toString.toNat?).getD 0
+  | none => 0
+
+def lcg (x : Nat) : Nat := (x * 6364136223846793005 + 1442695040888963407) % 18446744073709551616
+
+/-- outcome of the invocation for event `ev`: fails with an error naming the event, or succeeds -/
+def outcomeOf (seed ev : Nat) : Option Nat :=
+  if (lcg (seed + 31 * ev) / 65536) % 2 = 0 then some (1000 + ev) else none
+
+/-- interleaving: a window of `w` invocations in flight, a random one of them steps -/
+def schedOf : Nat → Nat → Nat → Nat → List Nat
+  | 0, _, _, _ => []
+  | fuel + 1, x, w, n =>
+    let x := lcg x
+    let base := (fuel / 4) % n
+    ((base + (x / 65536) % w) % n) :: schedOf fuel x w n
+
+def runCase (payload : String) : String :=
+  let fs := payload.splitOn " "
+  let w := field fs "w"
+  let ev := field fs "ev"
+  let seed := field fs "seed"
+  if w = 0 ∨ ev = 0 then "bad-payload" else
+  let n := min ev 48
+  let outcome := outcomeOf seed
+  let init : State String (Option Nat) SLoc := ⟨fun _ => none, fun t => { event := t }⟩
+  let sched := schedOf (n * 6) seed w n ++ (List.range (n * 3)).map (· % n)
+  let fin := run (sinkSys [] outcome) init sched
+  let ts := List.range n
+  let lost := (ts.filter fun t => (outcome t).isSome ∧ (fin.locals t).ret ≠ some (outcome t)).length
+  let mis := (ts.filter fun t =>
+    match (fin.locals t).ret with
+    | some (some e) => outcome t ≠ some e
+    | _ => false).length
+  -- an error value returned by more invocations than produced it
+  let dup := (ts.filter fun t =>
+    match outcome t with
+    | some e => (ts.filter fun u => (fin.locals u).ret = some (some e)).length > 1
+    | none => false).length
+  let echo := (ts.filter fun t => (fin.locals t).echo ≠ some t).length
+  s!"{lost} {dup} {mis} {echo}" ++ (if w ≥ 2 ∧ field fs "h" * (max 1 (field fs "burst")) ≥ 2 ∧ ev ≥ 100 then "\tnt=1" else "")
+
+def run (_args : List String) : IO Unit := lineLoop runCase
 end Ecal.Drv.C11
